@@ -388,6 +388,10 @@ impl Ctx {
 
 #[derive(Clone, Debug, PartialEq, Eq)]
 enum Cons {
+	/// like AddFile in listed order, but before each file a load of a missing file and of an
+	/// invalid glob for the same directory is attempted (and fails): a failed addition must
+	/// leave the filter as it was, later additions still count
+	AddFileAfterFailures,
 	New(Vec<usize>),
 	NewRepeat,
 	AddFile(Vec<usize>),
@@ -399,6 +403,7 @@ impl Cons {
 	fn kind(&self, n: usize) -> &'static str {
 		let listed: Vec<usize> = (0..n).collect();
 		match self {
+			Cons::AddFileAfterFailures => "add_file-after-failed-additions",
 			Cons::New(o) if *o == listed => "new",
 			Cons::New(_) => "new-permuted",
 			Cons::NewRepeat => "new-repeat",
@@ -410,6 +415,7 @@ impl Cons {
 	}
 	fn label(&self) -> String {
 		match self {
+			Cons::AddFileAfterFailures => "new[]+(failed add_file, failed add_globs, add_file)*".into(),
 			Cons::New(o) => format!("new{o:?}"),
 			Cons::NewRepeat => "new-repeat".into(),
 			Cons::AddFile(o) => format!("new[]+add_file{o:?}"),
@@ -461,6 +467,9 @@ fn constructions(cfg: &Config) -> Vec<Cons> {
 	for k in 1..n {
 		v.push(Cons::Prefix(k));
 	}
+	if n >= 1 {
+		v.push(Cons::AddFileAfterFailures);
+	}
 	v.push(Cons::AddGlobs);
 	v
 }
@@ -476,6 +485,20 @@ fn build(ctx: &Ctx, cons: &Cons, real: &[IgnoreFile], cfg: &Config) -> Result<Ig
 				let mut f = IgnoreFilter::new(&origin, &[]).await.map_err(|e| e.to_string())?;
 				for i in o {
 					f.add_file(&real[*i]).await.map_err(|e| e.to_string())?;
+				}
+				Ok(f)
+			}
+			Cons::AddFileAfterFailures => {
+				let mut f = IgnoreFilter::new(&origin, &[]).await.map_err(|e| e.to_string())?;
+				for file in real {
+					let missing = IgnoreFile { path: file.path.with_file_name("no-such-ignore-file"), applies_in: file.applies_in.clone(), applies_to: None };
+					if f.add_file(&missing).await.is_ok() {
+						return Err("add_file of a missing file succeeded".into());
+					}
+					if f.add_globs(&["a[", "x.never"], file.applies_in.as_ref()).is_ok() {
+						return Err("add_globs with an invalid glob succeeded".into());
+					}
+					f.add_file(file).await.map_err(|e| e.to_string())?;
 				}
 				Ok(f)
 			}
